@@ -132,14 +132,27 @@ func readSort(toks []string, i int) (string, int) {
 	return strings.Join(parts, " "), len(toks)
 }
 
-func LoadPrelude(dir string) (*Prelude, error) {
+func LoadPrelude(dir string, generated ...string) (*Prelude, error) {
 	p := &Prelude{Defs: map[string]*PDef{}, Opaque: map[string]bool{}, Ghosts: map[string]string{}}
 	files, _ := filepath.Glob(filepath.Join(dir, "*.smt2"))
 	sort.Strings(files)
+	// definitions generated from /repo's current sources on every run (e.g. the operator
+	// alternatives of the grammar file) are read after the committed files
+	for i := range generated {
+		files = append(files, fmt.Sprintf("generated:%d", i))
+	}
 	for _, f := range files {
-		data, err := os.ReadFile(f)
-		if err != nil {
-			return nil, err
+		var data []byte
+		if strings.HasPrefix(f, "generated:") {
+			var gi int
+			fmt.Sscanf(f, "generated:%d", &gi)
+			data = []byte(generated[gi])
+		} else {
+			var err error
+			data, err = os.ReadFile(f)
+			if err != nil {
+				return nil, err
+			}
 		}
 		for _, line := range strings.Split(string(data), "\n") {
 			if strings.HasPrefix(line, ";@ uses-type ") {
